@@ -6,11 +6,109 @@ import (
 	"fmt"
 	"runtime/debug"
 	"runtime/pprof"
+	"hash/fnv"
+	"runtime"
 	"strings"
+	"sync"
+	"sync/atomic"
 	"testing"
 	"testing/synctest"
 	"time"
+
+	"github.com/dgrr/http2"
 )
+
+// PerturbShare is the percentage of bubbles (chosen by a hash of the case id, so a replay makes the same
+// choice) in which the perturbation points of the library (hook H5) yield or sleep a PRNG number of
+// virtual nanoseconds. A sleep in virtual time costs nothing and lets every other goroutine of the
+// connection run first, so the library's own loops interleave differently from case to case.
+var PerturbShare = 0
+
+var (
+	perturbSleepers atomic.Int64
+	perturbMu       sync.Mutex
+	perturbCases    int
+	perturbSleeps   int64
+	perturbYields   int64
+	perturbSites    = map[string]int64{}
+	perturbOrders   = map[uint64]struct{}{}
+)
+
+// PerturbStats reports what the perturbation hook did in this process.
+func PerturbStats() (cases int, sleeps, yields int64, sites map[string]int64, orders int) {
+	perturbMu.Lock()
+	defer perturbMu.Unlock()
+	m := map[string]int64{}
+	for k, v := range perturbSites {
+		m[k] = v
+	}
+	return perturbCases, perturbSleeps, perturbYields, m, len(perturbOrders)
+}
+
+func hash64(s string) uint64 {
+	h := fnv.New64a()
+	h.Write([]byte(s))
+	return h.Sum64()
+}
+
+func mix64(x uint64) uint64 {
+	x ^= x >> 33
+	x *= 0xff51afd7ed558ccd
+	x ^= x >> 33
+	x *= 0xc4ceb9fe1a85ec53
+	x ^= x >> 33
+	return x
+}
+
+// installPerturb installs the hook for one bubble and returns the function that removes it and
+// records the order in which the points were passed.
+func installPerturb(caseID string) func() {
+	seed := hash64("perturb/" + caseID)
+	var n atomic.Uint64
+	var omu sync.Mutex
+	order := fnv.New64a()
+	var sleeps, yields int64
+	local := map[string]int64{}
+	http2.VerifSetPointHook(func(site string) {
+		k := n.Add(1)
+		h := mix64(seed ^ mix64(k) ^ hash64(site))
+		omu.Lock()
+		if k <= 64 {
+			order.Write([]byte(site))
+		}
+		local[site]++
+		omu.Unlock()
+		switch h % 4 {
+		case 0:
+		case 1:
+			atomic.AddInt64(&yields, 1)
+			runtime.Gosched()
+		default:
+			atomic.AddInt64(&sleeps, 1)
+			d := time.Duration(1+(h>>8)%50000) * time.Nanosecond
+			perturbSleepers.Add(1)
+			time.Sleep(d)
+			perturbSleepers.Add(-1)
+		}
+	})
+	return func() {
+		http2.VerifSetPointHook(nil)
+		omu.Lock()
+		sig := order.Sum64()
+		omu.Unlock()
+		perturbMu.Lock()
+		perturbCases++
+		perturbSleeps += atomic.LoadInt64(&sleeps)
+		perturbYields += atomic.LoadInt64(&yields)
+		omu.Lock()
+		for k, v := range local {
+			perturbSites[k] += v
+		}
+		omu.Unlock()
+		perturbOrders[sig] = struct{}{}
+		perturbMu.Unlock()
+	}
+}
 
 // CaseResult says how a bubble ended.
 type CaseResult struct {
@@ -27,6 +125,9 @@ type CaseResult struct {
 // labelled with the case id, under a real-time watchdog.
 func RunBubble(t *testing.T, caseID string, watchdog time.Duration, f func()) CaseResult {
 	done := make(chan CaseResult, 1)
+	if PerturbShare > 0 && int(hash64("share/"+caseID)%100) < PerturbShare {
+		defer installPerturb(caseID)()
+	}
 	go func() {
 		var res CaseResult
 		defer func() {
@@ -63,7 +164,18 @@ func RunBubble(t *testing.T, caseID string, watchdog time.Duration, f func()) Ca
 }
 
 // Wait is synctest.Wait: returns when every goroutine of the bubble is durably blocked.
-func Wait() { synctest.Wait() }
+// While a goroutine sleeps at a perturbation point it is durably blocked in the middle of its work, so
+// Wait lets virtual time pass until no such sleeper is left (bounded, in case a sleeper belongs to an
+// abandoned bubble whose clock no longer moves).
+func Wait() {
+	for i := 0; i < 100000; i++ {
+		synctest.Wait()
+		if perturbSleepers.Load() == 0 {
+			return
+		}
+		time.Sleep(60 * time.Microsecond)
+	}
+}
 
 // GoroutinesOf returns the stacks (aggregated, pprof debug=1 format) of live goroutines that carry the
 // case label and mention needle in their stack.
